@@ -252,11 +252,26 @@ where
             rest.push(x.describe());
         }
     }
+    if optional_new {
+        // burst configurations: make room before the later delivery
+        for x in signals.pending() {
+            rest.push(x.describe());
+        }
+    }
+    // a LATER delivery, straight after the call (no scan in between): the consumer goes to sleep in
+    // wait() and must be woken by it and be handed it
+    let later_seq = inner_seq + 1;
+    queue(S, later_seq);
+    let mut later: Got = Vec::new();
+    for x in signals.wait() {
+        later.push(x.describe());
+    }
     for x in signals.pending() {
-        rest.push(x.describe());
+        later.push(x.describe());
     }
     let mut all = got_outer.clone();
     all.extend(rest.iter().cloned());
+    all.extend(later.iter().cloned());
     // every complaint starts with its kind: LOST (C09), EXTRA / UNWATCHED / FIELD / ORDER (C10)
     let mut bad: Vec<String> = Vec::new();
     for (sig, _) in &all {
@@ -290,7 +305,7 @@ where
     };
     if raw {
         let kept: Vec<usize> = sent.iter().filter(|(sig, _)| *sig == S).map(|(_, q)| *q).take(5).collect();
-        let want_s: Vec<usize> = kept.iter().cloned().chain(std::iter::once(inner_seq)).collect();
+        let want_s: Vec<usize> = kept.iter().cloned().chain(std::iter::once(inner_seq)).chain(std::iter::once(later_seq)).collect();
         let have_s: Vec<usize> = all.iter().filter(|(sig, _)| *sig == S).map(|(_, r)| r.unwrap().2).collect();
         compare("SIGUSR1", &have_s, &want_s, if optional_new { Some(inner_seq) } else { None }, &mut bad);
         let want_t: Vec<usize> = sent.iter().filter(|(sig, _)| *sig == T).map(|(_, q)| *q).take(5).collect();
@@ -298,7 +313,7 @@ where
         compare("SIGUSR2", &have_t, &want_t, None, &mut bad);
         for (sig, r) in &all {
             let (code, pid, val) = r.unwrap();
-            let want_pid = if val == inner_seq && *sig == S { me } else { parent_pid };
+            let want_pid = if val >= inner_seq && *sig == S { me } else { parent_pid };
             if code != SI_QUEUE || pid != want_pid {
                 bad.push(format!("FIELD record {}:{} has code {} pid {} (sent: code {} pid {})", sig, val, code, pid, SI_QUEUE, want_pid));
             }
@@ -313,39 +328,11 @@ where
         if got_s < 1 {
             bad.push(format!("LOST SIGUSR1 yielded {} times for {} deliveries", got_s, pre_s + 1));
         }
-        if got_s > pre_s + 1 {
-            bad.push(format!("EXTRA SIGUSR1 yielded {} times for {} deliveries", got_s, pre_s + 1));
+        if got_s > pre_s + 2 {
+            bad.push(format!("EXTRA SIGUSR1 yielded {} times for {} deliveries", got_s, pre_s + 2));
         }
-    }
-    // a LATER delivery, after everything above has been consumed: the consumer goes to sleep in
-    // wait() and must be woken by it and be handed it (exactly once)
-    let later_seq = inner_seq + 1;
-    queue(S, later_seq);
-    let mut later: Got = Vec::new();
-    for x in signals.wait() {
-        later.push(x.describe());
-    }
-    for x in signals.pending() {
-        later.push(x.describe());
-    }
-    let later_s: Vec<&(i32, Option<(i32, i32, usize)>)> = later.iter().filter(|(sig, _)| *sig == S).collect();
-    if later.iter().any(|(sig, _)| *sig != S) {
-        bad.push(format!("EXTRA after a later delivery of SIGUSR1 alone the iterator yielded{}", show(&later)));
-    }
-    if raw {
-        let vals: Vec<usize> = later_s.iter().map(|(_, r)| r.unwrap().2).collect();
-        if !vals.contains(&later_seq) {
-            bad.push(format!("LOST the record of a later delivery (value {}) never came out (yielded {:?})", later_seq, vals));
-        }
-        if vals.iter().any(|v| *v != later_seq) || vals.len() > 1 {
-            bad.push(format!("EXTRA a later delivery (value {}) yielded records {:?}", later_seq, vals));
-        }
-    } else {
-        if later_s.is_empty() {
-            bad.push("LOST a later delivery of SIGUSR1 was not reported".to_string());
-        }
-        if later_s.len() > 1 {
-            bad.push(format!("EXTRA a later delivery of SIGUSR1 was reported {} times", later_s.len()));
+        if !later.iter().any(|(sig, _)| *sig == S) {
+            bad.push("LOST the later delivery of SIGUSR1 (after the call) was not reported by the wait() that followed it".to_string());
         }
     }
     let line = format!("K {} {} | outer{} | {}rest{} | later{}\n", k, if bad.is_empty() { "OK".to_string() } else { format!("BAD {}", bad.join("; ")) },
